@@ -81,7 +81,7 @@ pub fn judge(src: &str, family: &str, budgets: &[usize], l: &mut Local) {
 pub fn run(ctx: &Ctx) -> Report {
     let mut rep = Report::new(
         "model_checking",
-        "every program of the nine C02 value-dependent families (all item sequences up to a length), the skeleton grid (chains 0..12 with/without oscillator), asm-block macros with local labels and #assert programs, each assembled under a row of budgets; success at N must recur identically (bits, symbols) at every larger budget, reported passes <= budget, failures clean. Non-trivial = program whose outcome differs between at least two budgets; states = distinct (program, outcome row), transitions = passes executed.",
+        "every program of the ten C02 value-dependent families (all item sequences up to a length), the skeleton grid (chains 0..12 with/without oscillator), asm-block macros with local labels and #assert programs, each assembled under a row of budgets; success at N must recur identically (bits, symbols) at every larger budget, reported passes <= budget, failures clean. Non-trivial = program whose outcome differs between at least two budgets; states = distinct (program, outcome row), transitions = passes executed.",
     );
     let budgets: Vec<usize> = if ctx.thorough { (1..=31).collect() } else { vec![1, 2, 3, 4, 5, 10, 11, 30] };
     for f in c02::families() {
